@@ -148,7 +148,8 @@ def features(ast) -> tuple:
             b.items and isinstance(b.items[-1], Break) for b in x.branches)
             for x in loop.body.items)
 
-    def w(seq, in_loop, is_top, tail_of_loop, depth, tail_via_fork=False):
+    def w(seq, in_loop, is_top, tail_of_loop, depth, tail_via_fork=False,
+          tailpos=False):
         items = seq.items
         for i, it in enumerate(items):
             last = i == len(items) - 1
@@ -177,6 +178,13 @@ def features(ast) -> tuple:
                 if any(isinstance(x, Fork) for x in body):
                     f.add("fork_in_loop")
                 if has_break(it):
+                    if tailpos and last and any(
+                            isinstance(x, Fork) and any(
+                                len(b.items) == 1
+                                and isinstance(b.items[0], Break)
+                                for b in x.branches) for x in body):
+                        # nothing follows the loop up to the end of the job
+                        f.add("empty_break_loop_last")
                     f.add("break")
                     for x in body:
                         if isinstance(x, Fork):
@@ -205,7 +213,8 @@ def features(ast) -> tuple:
                         f.add("break_loop_tail_of_fork_ending_loop")
                 if depth > 0 and not in_loop:
                     f.add("loop_in_fork")
-                w(it.body, True, False, True, depth)
+                w(it.body, True, False, True, depth, False,
+                  tailpos and last)
             elif isinstance(it, Fork):
                 f.add(it.kind)
                 f.add(f"depth{depth + 1}")
@@ -221,8 +230,9 @@ def features(ast) -> tuple:
                     if b.items and isinstance(b.items[-1], Kill):
                         f.add("kill")
                     w(b, in_loop, False, False, depth + 1,
-                      last and (tail_of_loop or tail_via_fork))
-    w(ast, False, True, False, 0)
+                      last and (tail_of_loop or tail_via_fork),
+                      tailpos and last)
+    w(ast, False, True, False, 0, False, True)
     names = ps.event_names(ast)
     if any(not (n.startswith("E") and n[1:].isdigit()) for n in names):
         f.add("exotic_names")
